@@ -386,10 +386,26 @@ class Interp:
             env[t.id] = v
         elif isinstance(t, (ast.Tuple, ast.List)):
             vs = list(v)
-            if len(vs) != len(t.elts):
+            stars = [i for i, e in enumerate(t.elts) if isinstance(e, ast.Starred)]
+            if len(stars) == 1:
+                i = stars[0]
+                after = len(t.elts) - i - 1
+                if len(vs) < len(t.elts) - 1:
+                    raise Raised("ValueError", "unpack")
+                parts = vs[:i] + [vs[i:len(vs) - after]] + vs[len(vs) - after:]
+                for e, x in zip(t.elts, parts):
+                    self._assign(e.value if isinstance(e, ast.Starred) else e, x, env)
+                return
+            if stars or len(vs) != len(t.elts):
                 raise Raised("ValueError", "unpack")
             for e, x in zip(t.elts, vs):
                 self._assign(e, x, env)
+        elif isinstance(t, ast.Attribute):
+            obj = self.expr(t.value, env)
+            if isinstance(obj, Synth):
+                setattr(obj, t.attr, v)
+            else:
+                raise Unsupported("attribute store")
         elif isinstance(t, ast.Subscript):
             c = self.expr(t.value, env)
             k = self.expr(t.slice, env)
